@@ -65,4 +65,27 @@ def written (f : File) (v : List Byte) (off : Nat) : File :=
 def Partial (f : File) (v : List Byte) (off n : Nat) (cur : File) : Prop :=
   ∀ i, cur i = if off ≤ i ∧ i < off + n then v.getD (i - off) 0 else f i
 
+/-! ### the retry loop of `FileDisk.ReadTo`: `for n := 0; n < len(buf); { k, err := Pread(fd, buf[n:], off+int64(n)); …; n += k }`
+
+The buffer is a function from indices to bytes as well (only indices below `len` belong to it); the file does not change. -/
+
+/-- Effect of `pread(fd, buf[n:], off+n)` that transferred `k` bytes: file byte `off+j` lands in `buf[j]` for `n ≤ j < n+k`. -/
+def preadAt (buf : File) (f : File) (off n k : Nat) : File :=
+  fun j => if n ≤ j ∧ j < n + k then f (off + j) else buf j
+
+def readLoop (len off : Nat) (f : File) : File → Nat → List Ans → Option Out
+  | buf, n, as =>
+    if len ≤ n then some (.ok buf) else
+    match as with
+    | [] => none
+    | .err :: _ => some (.panic buf)
+    | .wrote k :: rest =>
+      let k' := min k (len - n)
+      if k' = 0 then some (.panic buf)
+      else readLoop len off f (preadAt buf f off n k') (n + k') rest
+
+/-- Invariant: the first `n` bytes of the buffer are the file's, the rest is what the caller passed in. -/
+def PartialR (buf0 f : File) (off n : Nat) (cur : File) : Prop :=
+  ∀ j, cur j = if j < n then f (off + j) else buf0 j
+
 end GooseVerif.Model.ShortWrite
